@@ -86,6 +86,8 @@ impl Violation {
 #[derive(Clone, Debug, Default)]
 pub struct Stats {
     pub counters: BTreeMap<&'static str, u64>,
+    /// Reported maxima (merged with max, not added).
+    pub maxima: BTreeMap<&'static str, u64>,
     pub sim_ms: u64,
 }
 
@@ -98,9 +100,18 @@ impl Stats {
     pub fn hit(&mut self, k: &'static str) {
         self.add(k, 1);
     }
+    pub fn max(&mut self, k: &'static str, v: u64) {
+        let e = self.maxima.entry(k).or_insert(0);
+        if v > *e {
+            *e = v;
+        }
+    }
     pub fn merge(&mut self, o: &Stats) {
         for (k, v) in &o.counters {
             *self.counters.entry(k).or_insert(0) += v;
+        }
+        for (k, v) in &o.maxima {
+            self.max(k, *v);
         }
         self.sim_ms += o.sim_ms;
     }
@@ -644,6 +655,7 @@ pub fn drive<C: Check>(check: &C, tier: Tier) -> i32 {
                 "simulated_seconds": acc.stats.sim_ms as f64 / 1000.0,
                 "faults_fired": faults,
                 "probes": probes,
+                "reported_maxima": acc.stats.maxima.iter().map(|(k, v)| (k.to_string(), *v)).collect::<BTreeMap<String, u64>>(),
                 "probes_stuck_at_zero": probes_zero,
                 "distinct_model_states": acc.states.len(),
                 "batch_trace_hash": format!("{:016x}", acc.trace_xor),
